@@ -339,3 +339,124 @@ func TestC18(t *testing.T) {
 		rec.Case(desc, maxDepth >= 2, ls...)
 	})
 }
+
+// FuzzC18Prove is the native (coverage guided) target of the thorough tier: the verifier - a trie opened on an
+// empty database from a root hash alone - is fed an arbitrary key and an arbitrary element list decoded from the
+// fuzz input (elements are genuine proof nodes of the fixed tries, byte-edited copies of them, or raw bytes).
+// Oracle (soundness): whatever it returns without error is the value really stored under that key in the trie
+// with that root; an absent key never gets a value. A panic yields no value (see the note at the top).
+func FuzzC18Prove(f *testing.F) {
+	type fixed struct {
+		tr    *c18trie
+		keys  []string
+		nodes [][]byte
+	}
+	var tries []fixed
+	for i := 0; i < 6; i++ {
+		wide := i%2 == 1
+		tr := rapid.Custom(func(rt *rapid.T) *c18trie { return c18Build(rt, wide, "fz") }).Example(i)
+		fx := fixed{tr: tr, keys: c17SortedKeys(tr.model)}
+		seen := map[string]bool{}
+		for _, k := range fx.keys {
+			for _, e := range tr.snap.GetProof([]byte(k)) {
+				if !seen[string(e)] {
+					seen[string(e)] = true
+					fx.nodes = append(fx.nodes, e)
+				}
+			}
+		}
+		tries = append(tries, fx)
+	}
+	// input: [trie][keySel][keyLen][key...] then elements: [kind][arg][len][bytes...]
+	for ti, fx := range tries {
+		for ki, k := range fx.keys {
+			if ki > 3 {
+				break
+			}
+			in := []byte{byte(ti), 0, byte(ki)}
+			for range fx.tr.snap.GetProof([]byte(k)) {
+				in = append(in, 0, 0, 0) // placeholder; genuine elements are picked by index below
+			}
+			f.Add(in)
+		}
+	}
+	f.Add([]byte{0, 1, 2, 'a', 'b', 2, 0, 3, 0xc2, 0x80, 0x80})
+	f.Fuzz(func(t *testing.T, in []byte) {
+		if len(in) < 3 || len(in) > 4096 {
+			return
+		}
+		fx := tries[int(in[0])%len(tries)]
+		var key []byte
+		pos := 2
+		if in[1]%2 == 0 && len(fx.keys) > 0 {
+			key = []byte(fx.keys[int(in[2])%len(fx.keys)])
+			pos = 3
+		} else {
+			n := int(in[2]) % 40
+			if 3+n > len(in) {
+				n = len(in) - 3
+			}
+			key = in[3 : 3+n]
+			pos = 3 + n
+		}
+		var proof [][]byte
+		if in[1]%2 == 0 && in[1]&2 == 0 {
+			// start from the genuine proof of the key and let the elements below overwrite positions
+			proof = c18Clone(fx.tr.snap.GetProof(key))
+		}
+		idx := 0
+		for pos+3 <= len(in) && len(proof) < 24 {
+			kind, arg, l := in[pos], int(in[pos+1]), int(in[pos+2])
+			pos += 3
+			var e []byte
+			switch kind % 4 {
+			case 0: // keep what is there (or a genuine node)
+				if idx < len(proof) {
+					idx++
+					continue
+				}
+				if len(fx.nodes) > 0 {
+					e = append([]byte{}, fx.nodes[arg%len(fx.nodes)]...)
+				}
+			case 1: // a genuine node with one byte edited
+				if len(fx.nodes) > 0 {
+					e = append([]byte{}, fx.nodes[arg%len(fx.nodes)]...)
+					if len(e) > 0 {
+						e[l%len(e)] ^= byte(1 + arg%255)
+					}
+				}
+			case 2: // raw bytes
+				if pos+l > len(in) {
+					l = len(in) - pos
+				}
+				e = append([]byte{}, in[pos:pos+l]...)
+				pos += l
+			default: // a genuine node of ANOTHER trie
+				o := tries[(int(in[0])+1+arg)%len(tries)]
+				if len(o.nodes) > 0 {
+					e = append([]byte{}, o.nodes[l%len(o.nodes)]...)
+				}
+			}
+			if idx < len(proof) {
+				proof[idx] = e
+			} else {
+				proof = append(proof, e)
+			}
+			idx++
+		}
+		val, err, panicked := c18Prove(c18Verifier(fx.tr.root), key, proof)
+		if panicked != nil || err != nil {
+			return
+		}
+		want, stored := fx.tr.model[string(key)]
+		if val == nil && !stored {
+			return
+		}
+		if !stored {
+			t.Fatalf("C18 violated: Prove yields value %x for key %x which root %x does not hold; proof %s", val, key, fx.tr.root, c18Fmt(proof))
+		}
+		if !bytes.Equal(val, want) {
+			t.Fatalf("C18 violated: Prove yields %x for key %x, the trie with root %x stores %x; proof %s", val, key, fx.tr.root, want, c18Fmt(proof))
+		}
+	})
+}
